@@ -353,6 +353,7 @@ def run(ctx, rep):
                        '', db.config)
     rep.note('evaluators', summary)
     caller_side(ctx, rep)
+    powers(ctx, rep)
     n_terms = sum(1 for o in rep.obligations if o['rule'].endswith('.term'))
     # measured on the pinned tree: 1539 composition + 2686 DEEP positions
     rep.floor('C16', 'coefficient positions examined', n_terms, 4225)
@@ -388,3 +389,83 @@ def caller_side(ctx, rep):
         b = {x for x in found['oods'][1] if x.startswith('call:')}
         rep.ob('C16.caller', 'distinct-challenges', a != b or not a,
                'the two coefficient vectors must come from different squeeze sites', fn.loc(), db.config)
+
+
+def powers(ctx, rep):
+    """powers_array(initial, alpha, n) = [initial * alpha^i for i < n]: coefficient i is its own power of the challenge.
+    Recognised form: one loop over 0..n whose body pushes an accumulator and then multiplies it by alpha; the accumulator
+    starts as `initial`; nothing else happens in the function (no indexing into the array built so far, no remainder,
+    no second loop). Any other way of filling the vector is reported: the rule cannot tell that it yields distinct powers."""
+    import dataflow
+    import exprtree
+    from facts import op_place
+    db = ctx.main
+    cfg = db.config
+    cands = [p for p in db.fns if p.endswith('::commit::powers_array')]
+    if len(cands) != 1:
+        rep.fail_closed('C16.powers', f'powers_array not found ({cands})')
+        return
+    fn = db.fns[cands[0]]
+    fl = dataflow.Flow(db, fn)
+    T = exprtree.Trees(db, fn)
+    why = []
+    allowed = {'with_capacity', 'new', 'reserve', 'into_iter', 'next', 'push', 'mul_assign', 'mul'}
+    other = sorted({t['f'].get('name') for _, t in fn.calls()} - allowed)
+    if other:
+        why.append(f'other operations: {other}')
+    be = fn.d.get('backedges') or []
+    if len(be) != 1:
+        why.append(f'{len(be)} loops (expected one)')
+    sites = [g for g in dataflow.own_iter_sites(db, fn, fl) if g.kind == 'iter:loop']
+    if len(sites) != 1 or sites[0].root != 'range' or not (set(sites[0].lhs) <= {'a3', 'lit:0'} and 'a3' in sites[0].lhs):
+        why.append('the loop does not run over 0..n')
+    pushes = [(bi, t) for bi, t in fn.calls() if t['f'].get('name') == 'push']
+    muls = [(bi, t) for bi, t in fn.calls() if t['f'].get('name') in ('mul_assign', 'mul')]
+    if len(pushes) != 1 or len(muls) != 1:
+        why.append(f'{len(pushes)} push and {len(muls)} multiplication sites (expected one each)')
+    else:
+        (pb, pt), (mb, mt) = pushes[0], muls[0]
+        loop_blocks = set()
+        if len(be) == 1:
+            tail, head = be[0]
+            loop_blocks = fn.reachable_from(head) & fn.can_reach({tail})
+        if pb not in loop_blocks or mb not in loop_blocks:
+            why.append('push / multiplication outside the loop')
+        dom = fn.dominators()
+        if pb not in dom.get(mb, ()):
+            why.append('the accumulator is multiplied before it is pushed (entry 0 would not be `initial`)')
+        acc = op_place(pt['args'][1])
+        defs = common.defs_of(fn)
+
+        def root_local(op):
+            """follow moves/copies/reborrows back to the variable"""
+            pl = op_place(op)
+            seen = set()
+            while pl is not None and not [e for e in pl['p'] if e != '*'] and pl['l'] not in seen:
+                seen.add(pl['l'])
+                ds = defs.get(pl['l'], [])
+                if len(ds) == 1 and ds[0][1] == 'assign' and ds[0][2]['k'] in ('use', 'ref') and not (1 <= pl['l'] <= fn.arg_count):
+                    nxt = op_place(ds[0][2]['a']) if ds[0][2]['k'] == 'use' else ds[0][2]['place']
+                    if nxt is None or 1 <= nxt['l'] <= fn.arg_count:
+                        break       # `let mut value = initial`: the variable, not the parameter
+                    pl = nxt
+                    continue
+                break
+            return pl['l'] if pl is not None else None
+        v_push = root_local(pt['args'][1])
+        v_mul = root_local(mt['args'][0])
+        if v_push is None or v_push != v_mul:
+            why.append('the value pushed is not the accumulator that is multiplied')
+        else:
+            ds = defs.get(v_push, [])
+            inits = [d for d in ds if d[1] == 'assign']
+            if mt['f'].get('name') == 'mul':
+                inits = [d for d in inits if d[0] not in loop_blocks]
+            if len(inits) != 1 or T.rvalue(inits[0][2], 0) != ('arg', 1):
+                why.append('the accumulator does not start as `initial`')
+        if set(fl.operand_leaves(mt['args'][1])) != {'a2'}:
+            why.append(f'the multiplier is not alpha alone (leaves {sorted(fl.operand_leaves(mt["args"][1]))[:4]})')
+    rep.ob('C16.powers', 'powers_array', not why,
+           'powers_array pushes initial, initial*alpha, initial*alpha^2, ... (accumulator loop over 0..n)' if not why else
+           'powers_array is not the recognised accumulator loop, so coefficient i cannot be shown to be alpha^i: ' + '; '.join(why),
+           fn.loc(), cfg)
